@@ -591,7 +591,8 @@ def units(ctx, model, problems):
 
 # ---------------------------------------------------------------------------------------------------------
 # round 2: call histories around ZSTD_generateSequences, adversarial block-level sequence producer
-R2_KEYS = {"collector1": "C06-generateSequences-collector-left-armed", "producer1": "C06-splitter-exceeds-compressBound"}
+R2_KEYS = {"collector1": "C06-generateSequences-collector-left-armed", "producer1": "C06-splitter-exceeds-compressBound",
+           "legacy1": "C06-legacy-bound-oversize-raw-rle-blocks"}
 R2_KIND_KEYS = {"splitter-partition-table-overrun": "C06-splitter-partition-table-overrun"}
 
 
@@ -603,11 +604,14 @@ def r2_argv(desc):
         return f[:7]
     if f[0] == "producer1":
         return f[:14]
+    if f[0] == "legacy1":
+        return f[:4]
     return None
 
 
 def round2(ctx, problems, model=None):
-    """c06_r2: (a) ZSTD_generateSequences (succeeding / failing) followed by a compression on the same context while the old
+    """c06_r2: (c) hand-built legacy frames (v0.5-v0.7) with one raw / RLE block of up to 524287 bytes: ZSTD_decompressBound >= decoded.
+    (a) ZSTD_generateSequences (succeeding / failing) followed by a compression on the same context while the old
     outSeqs pages are PROT_NONE; (b) a sequence producer returning valid but worthless sequences (3-byte matches at offsets
     that cost 3 bytes, statistics that differ between the halves of every index range) so that the post-splitter and the
     super-block writer are driven into their worst expansion: ZSTD_compressBound(n) must still suffice."""
@@ -617,10 +621,10 @@ def round2(ctx, problems, model=None):
     def one(mode):
         pr = subprocess.run([exe, mode, str(ctx.seed), str(tier)], stdout=subprocess.PIPE, stderr=subprocess.PIPE, timeout=2400)
         return mode, pr.returncode, pr.stdout.decode("utf-8", "replace"), pr.stderr.decode("utf-8", "replace")
-    with ThreadPoolExecutor(max_workers=2) as ex:
-        res = list(ex.map(one, ("collector", "producer")))
+    with ThreadPoolExecutor(max_workers=3) as ex:
+        res = list(ex.map(one, ("collector", "producer", "legacy")))
     seen = {}
-    ncases = dict(collector=0, producer=0)
+    ncases = dict(collector=0, producer=0, legacy=0)
     maxparts = 0
     maxsplits = 0
     splitcases = []
@@ -639,6 +643,10 @@ def round2(ctx, problems, model=None):
                     splitcases.append(d)
                     continue
                 ncases[mode] += 1
+                if mode == "legacy":
+                    sz = int(d["size"])
+                    ctx.count(("r2-legacy", d["ver"], d["type"], d["dec"] != "-1", 0 if sz < KB128 else 1 if sz == KB128 else 2), nontrivial=sz > 0)
+                    continue
                 if mode == "collector":
                     n = int(d["n"])
                     ctx.count(("r2-collector", d["kind"], d["entry"], d["genMode"], d["gen"] == "ok", 0 if n == 0 else 1 if n < 2000 else 2 if n <= KB128 else 3), nontrivial=n > 0)
@@ -691,7 +699,7 @@ def round2(ctx, problems, model=None):
             if int(q[4], 16) != int(d["limit"]) or int(q[5], 16) != int(d["minseq"]):
                 problems.append(dict(kind="splitter-literals", real=(d["limit"], d["minseq"]), model=(int(q[4], 16), int(q[5], 16))))
         ctx.cov["traces_validated_against_impl"] += len(splitcases)
-    ctx.cov["traces_validated_against_impl"] += ncases["collector"] + ncases["producer"]
+    ctx.cov["traces_validated_against_impl"] += ncases["collector"] + ncases["producer"] + ncases["legacy"]
     ctx.notes["round2"] = dict(cases=ncases, max_partitions_of_one_block=maxparts, max_splits_derived=maxsplits, max_block_expansion=maxover, split_tables_tied=len(splitcases))
     if ncases["producer"]:
         ctx.sample(dict(family="round2", note="adversarial sequence producer: %d cases, at most %d partitions per source block" % (ncases["producer"], maxparts)))
